@@ -1187,6 +1187,20 @@ impl<'a> Searcher<'a> {
                     if let Ok(path) = crate::util::canonical_path(&entry.path()) {
                         return Variant::from_string(&path);
                     }
+
+                    // a link whose target cannot be resolved (dangling, a loop, behind a closed directory)
+                    // still has a place of its own: its directory's, and its name
+                    let path = entry.path();
+                    if let (Some(parent), Some(name)) = (path.parent(), path.file_name()) {
+                        if let Ok(parent) = crate::util::canonical_path(&parent.to_path_buf()) {
+                            return Variant::from_string(&format!(
+                                "{}{}{}",
+                                parent.trim_end_matches(std::path::MAIN_SEPARATOR),
+                                std::path::MAIN_SEPARATOR,
+                                name.to_string_lossy()
+                            ));
+                        }
+                    }
                 }
             },
             Field::Directory => {
